@@ -2,7 +2,8 @@
 # tools/seeded_all.sh [pattern]  — regression over the seeded changes: apply each patch to /repo, run the quick check of
 # its property (or the checks named in meta.json's "regress_checks"), expect exit 1 from at least one, undo.
 # Prints one line per change. A change whose meta.json names a "base_rev" was written for an older tree and is skipped.
-cd /verif
+ROOT=$(cd "$(dirname "$0")/.." && pwd)   # the tree this script belongs to (a snapshot of /verif when started by vp run)
+cd "$ROOT"
 export LC_ALL=C
 pat=${1:-}
 if ! git -C /repo diff --quiet; then echo "/repo has uncommitted changes" >&2; exit 2; fi
@@ -10,7 +11,7 @@ ok=0; miss=0; skipped=0
 for d in seeded/*${pat}*/; do
   id=$(basename $d); prop=${id%%-*}
   [ -f $d/patch.diff ] || continue
-  p=/verif/$d/patch.diff; [ -f $d/patch.rebased.diff ] && p=/verif/$d/patch.rebased.diff
+  p=$ROOT/$d/patch.diff; [ -f $d/patch.rebased.diff ] && p=$ROOT/$d/patch.rebased.diff
   checks=$(python3 -c "import json,sys; m=json.load(open('$d/meta.json')); print(' '.join(m.get('regress_checks',[])) if not m.get('base_rev') else 'SKIP')" 2>/dev/null)
   [ -z "$checks" ] && checks=$prop
   [ "$id" = "C04-r2m3" ] && checks=C07
@@ -24,5 +25,5 @@ for d in seeded/*${pat}*/; do
   git -C /repo checkout -- . ; git -C /repo clean -fdq
   if echo "$res" | grep -q "=1"; then ok=$((ok+1)); echo "$id: detected ($res)"; else miss=$((miss+1)); echo "$id: NOT DETECTED ($res)"; fi
 done
-rm -f /verif/replays/*.json
+rm -f "$ROOT"/replays/*.json
 echo "detected=$ok missed=$miss skipped=$skipped"
